@@ -182,22 +182,26 @@ def real_models(rng, quick):
         return p
 
     for _ in range(reps):
-        out.append(("hem", HEMModel(HEMParameters(u(0.05, 0.4), u(0.2, 0.8), u(3, 30), u(3, 30), u(0.5, 8))), 0, 0))
-        out.append(("merton", MertonModel(MertonParameters(u(0.05, 0.4), u(0.01, 0.3), u(0.08, 0.5), u(0.5, 8))), 0, 0))
-        out.append(("vg", VarianceGammaModel(VGParameters(u(0.1, 0.4), u(0.1, 0.6), u(-0.3, 0.2))), 1, 0))
-        out.append(("hem", HEMModel(via_updates(HEMParameters, ["sigma", "p", "eta1", "eta2", "intensity"], (0.2, 0.4, 8.0, 5.0, 3.0),
-                                                (u(0.05, 0.4), u(0.2, 0.8), u(3, 30), u(3, 30), u(0.5, 8)))), 0, 0))
-        out.append(("vg", VarianceGammaModel(via_updates(VGParameters, ["sigma", "nu", "theta"], (0.12, 0.2, -0.14),
-                                                         (u(0.1, 0.4), u(0.1, 0.6), u(-0.3, 0.2)))), 1, 0))
-        y_up = u(0.1, 0.9)
-        out.append(("cgmy_01", CGMYModel(via_updates(CGMYParameters, ["c", "g", "m", "y"], (0.5, 4.0, 6.0, 1.4),
-                                                     (u(0.05, 2.0), u(1.0, 12.0), u(1.0, 12.0), y_up))), 1, 0))
+        ph = (u(0.05, 0.4), u(0.2, 0.8), u(3, 30), u(3, 30), u(0.5, 8))
+        pm = (u(0.05, 0.4), u(0.01, 0.3), u(0.08, 0.5), u(0.5, 8))
+        pv = (u(0.1, 0.4), u(0.1, 0.6), u(-0.3, 0.2))
+        ph2 = (u(0.05, 0.4), u(0.2, 0.8), u(3, 30), u(3, 30), u(0.5, 8))
+        pv2 = (u(0.1, 0.4), u(0.1, 0.6), u(-0.3, 0.2))
+        pc2 = (u(0.05, 2.0), u(1.0, 12.0), u(1.0, 12.0), u(0.1, 0.9))
+        # factories: the objects are built inside the scenario, so that a constructor that raises is a recorded exception
+        out.append(("hem", lambda ph=ph: HEMModel(HEMParameters(*ph)), 0, 0))
+        out.append(("merton", lambda pm=pm: MertonModel(MertonParameters(*pm)), 0, 0))
+        out.append(("vg", lambda pv=pv: VarianceGammaModel(VGParameters(*pv)), 1, 0))
+        out.append(("hem", lambda ph2=ph2: HEMModel(via_updates(HEMParameters, ["sigma", "p", "eta1", "eta2", "intensity"],
+                                                               (0.2, 0.4, 8.0, 5.0, 3.0), ph2)), 0, 0))
+        out.append(("vg", lambda pv2=pv2: VarianceGammaModel(via_updates(VGParameters, ["sigma", "nu", "theta"], (0.12, 0.2, -0.14), pv2)), 1, 0))
+        out.append(("cgmy_01", lambda pc2=pc2: CGMYModel(via_updates(CGMYParameters, ["c", "g", "m", "y"], (0.5, 4.0, 6.0, 1.4), pc2)), 1, 0))
         for tag, y in (("cgmy_neg", u(-1.6, -0.2)), ("cgmy_0", 0.0), ("cgmy_01", u(0.1, 0.9)), ("cgmy_1", 1.0),
                        ("cgmy_12", u(1.1, 1.8))):
-            m = CGMYModel(CGMYParameters(u(0.05, 2.0), u(1.0, 12.0), u(1.0, 12.0), y))
+            pc = (u(0.05, 2.0), u(1.0, 12.0), u(1.0, 12.0), y)
             # smallest order whose integral over an interval touching zero is finite
             first0 = 0 if y < 0 else (1 if y < 1 else 2)
-            out.append((tag, m, first0, 0))
+            out.append((tag, lambda pc=pc: CGMYModel(CGMYParameters(*pc)), first0, 0))
     return out
 
 
@@ -211,8 +215,13 @@ def ref_quad(f, a, b):
     return _QUAD(f, a, b, epsabs=1e-14, epsrel=1e-13, limit=400)[0]
 
 
-def real_trace(tag, model, first0, rng, quick):
+def real_trace(tag, factory, first0, rng, quick):
     from rpylib.model.levymodel.levymodel import TruncatedLevyMeasure
+    try:
+        model = factory()
+    except Exception as ex:
+        return {"hdr": {"kind": "real:" + tag, "zero": 7, "np": 13},
+                "ev": [{"e": "Raise", "what": "constructor: " + type(ex).__name__ + ": " + str(ex)[:80]}]}
     P = [-np.inf, -3.0, -1.0, -0.4, -0.1, -0.01, 0.0, 0.01, 0.1, 0.4, 1.0, 3.0, np.inf]
     if not quick:
         j = rng.uniform(0.8, 1.25)
